@@ -168,7 +168,7 @@ func runCheck(prop, tier string, seed int64, only string) int {
 			fatal2(err.Error())
 		}
 		loadT += eng.loadTime
-		for _, rs := range part.Runs {
+		for ri, rs := range part.Runs {
 			if only != "" && rs.Entry != only {
 				continue
 			}
@@ -221,8 +221,8 @@ func runCheck(prop, tier string, seed int64, only string) int {
 			sort.Strings(keys)
 			for i, k := range keys {
 				f := ex.findings[k]
-				dir := filepath.Join(verifDir, "replays", prop, fmt.Sprintf("%s-%d", rs.Entry, i+1))
-				ok, out := writeAndRunReplay(dir, part, rs.Entry, f, cfg.Params)
+				dir := filepath.Join(verifDir, "replays", prop, fmt.Sprintf("%s-run%d-%d", rs.Entry, ri+1, i+1))
+				ok, out, dir := writeAndRunReplay(dir, part, rs.Entry, f, cfg.Params)
 				replayed++
 				if !ok {
 					inconclusive = append(inconclusive, fmt.Sprintf("%s: counterexample (%s: %s — %s) did not reproduce natively; see %s (%s)", rs.Entry, f.Outcome, f.Label, f.Msg, dir, firstLine(out)))
@@ -414,7 +414,7 @@ func imax(a, b int) int {
 // whose synchronisation is sync/sync.atomic only (spec "directed"), a first attempt enforces
 // the engine's order of synchronisation operations (rt/vrt.go.tmpl); otherwise, or if that
 // does not reproduce, the scenario is stress-run with free scheduling.
-func writeAndRunReplay(dir string, spec *Spec, entry string, f *Finding, params map[string]int64) (bool, string) {
+func writeAndRunReplay(dir string, spec *Spec, entry string, f *Finding, params map[string]int64) (bool, string, string) {
 	nondet := false
 	for _, d := range f.Decs {
 		if d.K == DChoose && (d.Tag == "sched" || d.Tag == "maporder" || d.Tag == "select" || d.Tag == "pool-get" || d.Tag == "pool-drop") {
@@ -422,9 +422,9 @@ func writeAndRunReplay(dir string, spec *Spec, entry string, f *Finding, params 
 		}
 	}
 	if spec.Directed && len(f.Sched) > 0 {
-		ok, out := runReplay(dir, spec, entry, f, params, true, 1)
+		ok, out := runReplay(dir+"-directed", spec, entry, f, params, true, 1)
 		if ok {
-			return true, out
+			return true, out, dir + "-directed"
 		}
 	}
 	count := 1
@@ -434,7 +434,8 @@ func writeAndRunReplay(dir string, spec *Spec, entry string, f *Finding, params 
 	if f.Outcome == ORace {
 		count = 30
 	}
-	return runReplay(dir, spec, entry, f, params, false, count)
+	ok, out := runReplay(dir, spec, entry, f, params, false, count)
+	return ok, out, dir
 }
 
 func rewriteSyncImports(src []byte, filename string) ([]byte, bool, error) {
